@@ -3,6 +3,7 @@
    (distinct indices below the bound, right length) yields [BadTape], which the theorems exclude. *)
 From Coq Require Import ZArith List Bool Arith.
 From Bingo Require Export Lib.Key Model.Best.
+From Bingo Require Import Gen.Consts.
 Import ListNotations.
 
 Record ind := mkInd { sid : nat; sage : Z; sfit : key }.
@@ -129,7 +130,7 @@ Definition age_fitness (sel_size : nat) (pop : list ind) (target : nat) (tape : 
   : outcome (list ind * list ind) :=     (* (returned population, caller's list afterwards) *)
   if Nat.ltb (length pop) target then Raises
   else let start := length pop in
-       match af_loop (start * 50) sel_size start (start - target) (mkAF pop 0 tape) with
+       match af_loop (start * worst_case_factor) sel_size start (start - target) (mkAF pop 0 tape) with
        | Ok st => Ok (firstn (start - af_removed st) (af_pop st), af_pop st)
        | Raises => Raises
        | BadTape => BadTape
